@@ -6,9 +6,12 @@
      {"op":"recv","src":"0a","bc":false,"hex":"<link octets>","app":[<answer>…]}      bc = link-level broadcast
          the application's answers, consumed one per indication of a confirmed
          request, in order (the harness records them on the real device):
-         <answer> = {"k":"simple"|"complex"|"error"|"reject"|"abort","hex":"…","r":n,"srv":b,"dcc":0|1|2|null}
+         <answer> = {"k":"simple"|"complex"|"error"|"reject"|"abort","hex":"…","r":n,"srv":b,"dcc":0|1|2|null,"dccus":µs|null}
+                    ("later": the helper returned without answering; "dcc": an ACCEPTED DeviceCommunicationControl set
+                     the gate, "dccus": … and scheduled the re-enable that far ahead)
      {"op":"quiesce"}                        fire every armed transaction timer; reply has "pend": the
                                              Network-Number-Is answer task is (still) scheduled then
+     {"op":"respond","src":"0a","id":n,"svc":n,"ans":<answer>}   the application answers LATER a request it was handed
      {"op":"advance","us":n}                 n microseconds pass: transaction timers due meanwhile fire
      {"op":"dcc","d":0|1|2}                  the application switched the DCC gate (timed re-enable)
      {"op":"learn","src":"0a","info":{maxApdu,seg,maxSegs,maxNpdu}}   I-Am seen by the application
@@ -32,7 +35,7 @@ structure AppQ where
 def serveQ (q : AppQ) (_p : Peer) (_a : Apdu) : AppQ × AppReply :=
   match q.queue with
   | r :: rest => ({ q with queue := rest, asked := q.asked + 1 }, r)
-  | [] => ({ q with asked := q.asked + 1, starved := q.starved + 1 }, { answer := .simpleAck })
+  | [] => ({ q with asked := q.asked + 1, starved := q.starved + 1 }, { answer := some .simpleAck })
 
 def devCfg (base : Tsm.Cfg) : DevCfg AppQ :=
   { base := base, env := Gen.Schemas.env, confirmed := Gen.Schemas.confirmed,
@@ -50,19 +53,23 @@ def dccCode : Dcc → Nat
 
 def u8 (n : Nat) : UInt8 := UInt8.ofNat n
 
-def answerOfJson (j : Json) : R AppReply := do
+def appAnswerOfJson (j : Json) : R (Option AppAnswer) := do
   let hex ← match fldOpt j "hex" with
     | none => pure []
     | some _ => fldHex j "hex"
-  let ans ← match ← fldStr j "k" with
-    | "simple" => pure AppAnswer.simpleAck
-    | "complex" => pure (AppAnswer.complexAck hex)
-    | "error" => pure (AppAnswer.error hex)
-    | "reject" => pure (AppAnswer.reject (u8 (← fldNat j "r")))
-    | "abort" => pure (AppAnswer.abort (fldB j "srv") (u8 (← fldNat j "r")))
-    | k => throw s!"bad answer kind {k}"
+  match ← fldStr j "k" with
+  | "simple" => pure (some AppAnswer.simpleAck)
+  | "complex" => pure (some (AppAnswer.complexAck hex))
+  | "error" => pure (some (AppAnswer.error hex))
+  | "reject" => pure (some (AppAnswer.reject (u8 (← fldNat j "r"))))
+  | "abort" => pure (some (AppAnswer.abort (fldB j "srv") (u8 (← fldNat j "r"))))
+  | "later" => pure none          -- the helper returned without answering
+  | k => throw s!"bad answer kind {k}"
+
+def answerOfJson (j : Json) : R AppReply := do
+  let ans ← appAnswerOfJson j
   let dcc ← fldOptNat j "dcc"
-  pure { dcc := dcc.map dccOfNat, answer := ans }
+  pure { dcc := dcc.map dccOfNat, dccFor := ← fldOptNat j "dccus", answer := ans }
 
 def jAddr : Npci.Addr → Json
   | .null => Json.arr #["null"]
@@ -103,6 +110,7 @@ def report (st : DSt) (extra : List (String × Json)) (outs : List Frame) (br : 
      ("cl", Json.num st.dev.sap.clients.length),
      ("dcc", Json.num (dccCode st.dev.sap.dcc)),
      ("net", Json.arr #[jNatOpt st.dev.net, jNatOpt st.dev.netCfg]),
+     ("dcct", jNatOpt (st.dev.dccTimer.map (· - st.dev.sap.now))),
      ("br", Json.str br)])
 
 def handle (st : DSt) (j : Json) : R (DSt × Json) := do
@@ -132,6 +140,16 @@ def handle (st : DSt) (j : Json) : R (DSt × Json) := do
     -- "pend": a timer other than a transaction's is scheduled when every transaction is over
     pure (st', report st' [("pend", Json.bool dev0.nniPending)] outs
       ("q:" ++ (if dev0.nniPending then "nni:" else "") ++ String.intercalate "," (outs.map hdrSig)))
+  | "respond" =>
+    -- the application answers later: {"op":"respond","src":"0a","id":n,"svc":n,"ans":<answer>}
+    let src ← fldHex j "src"
+    let req : Apdu := { ty := 0, invokeId := ← fldNat j "id", service := ← fldNat j "svc" }
+    match ← appAnswerOfJson (← fld j "ans") with
+    | none => throw "respond: need an answer"
+    | some ans =>
+      let (dev1, outs) := respond (devCfg st.base) st.dev (peerOf (.localStation src)) req ans
+      let st' := { st with dev := dev1 }
+      pure (st', report st' [] outs ("rsp:" ++ String.intercalate "," (outs.map hdrSig)))
   | "advance" =>
     let dev0 := { st.dev with app := {} }
     let (dev1, outs) := advance (devCfg st.base) dev0 (← fldNat j "us")
